@@ -592,8 +592,8 @@ def gen_manifest():
             "guard": "--cfg dust_dds_verif",
             "enable": "RUSTFLAGS='--cfg dust_dds_verif --cap-lints allow' (fixed in /verif/harness/.cargo/config.toml; "
                       "the harness crates depend on /repo/dds by path, so every check rebuilds from /repo's working tree)",
-            "baseline_off_cmd": "cd /repo && cargo nextest run --workspace --no-fail-fast --test-threads 8 --offline "
-                                "|| cargo test --workspace --no-fail-fast --offline",
+            "baseline_off_cmd": "/verif/lib/baseline.sh /repo   # the BASELINE.json command (nextest, guard off) in a private "
+                                "network namespace, compared with BASELINE.json stable_pass; BASELINE_THREADS=1 for a loaded machine",
             "source_commits": [c.split()[0] for c in hooks_commits],
             "add_only": True,
         },
